@@ -98,6 +98,9 @@ def run(ctx, chk, tier="quick"):
                        why="a storm or rise that touches the last sample of a gap-free stretch raises IndexError")
         chk.floor("subscripts by a run stop examined", n_subs, 4)
 
+    # ------------------------------------------------------------ O2 (completion): no unpacking along a data-dependent axis
+    _unpack_along_data_axis(ctx, chk)
+
     # ------------------------------------------------------------ O3
     _run_start_marker(ctx, chk)
 
@@ -201,6 +204,95 @@ def _length_test(e, name):
 
 
 # ---------------------------------------------------------------- O3
+def _data_axis_unpack(flow, st):
+    """`a, b = X.T` / `a, b = zip(*L)` where X / L has one entry per data item (a comprehension, an appended list,
+    np.array of one): the number of values to unpack is len(data) along the unpacked axis when the data are empty.
+    -> (description, source node) or None."""
+    if not (isinstance(st, ast.Assign) and len(st.targets) == 1 and isinstance(st.targets[0], (ast.Tuple, ast.List)) and len(st.targets[0].elts) >= 2):
+        return None
+    v = st.value
+    while isinstance(v, ast.Call) and isinstance(v.func, ast.Name) and v.func.id in ("list", "tuple") and len(v.args) == 1:
+        v = v.args[0]
+
+    def per_item(e, depth=0):
+        """A sequence with one entry per data item, whose entries are tuples / rows."""
+        if depth > 4 or e is None:
+            return None
+        if isinstance(e, (ast.ListComp, ast.GeneratorExp)) and isinstance(e.elt, (ast.Tuple, ast.List)):
+            return e
+        if isinstance(e, ast.Call) and e.args and (dotted_name(e.func) or "").split(".")[-1] in ("array", "asarray", "list", "tuple", "sorted"):
+            return per_item(e.args[0], depth + 1)
+        if isinstance(e, ast.Name):
+            dv = flow.def_value(e, mutable_ok=True)
+            if isinstance(dv, ast.List) and not dv.elts:
+                return e          # L = [] ; L.append((..)) in a loop
+            return per_item(dv, depth + 1)
+        return None
+
+    if isinstance(v, ast.Attribute) and v.attr == "T":
+        src = per_item(v.value)
+        if src is not None:
+            return "%s = (array with one row per item of %s).T" % (ast.unparse(st.targets[0]), ast.unparse(src)[:50]), v.value
+    if isinstance(v, ast.Call) and (dotted_name(v.func) or "").split(".")[-1] == "transpose" and v.args:
+        src = per_item(v.args[0])
+        if src is not None:
+            return "%s = transpose(array with one row per item of %s)" % (ast.unparse(st.targets[0]), ast.unparse(src)[:50]), v.args[0]
+    if isinstance(v, ast.Call) and isinstance(v.func, ast.Name) and v.func.id == "zip" and len(v.args) == 1 and isinstance(v.args[0], ast.Starred):
+        src = per_item(v.args[0].value)
+        if src is not None:
+            return "%s = zip(*%s)" % (ast.unparse(st.targets[0]), ast.unparse(v.args[0].value)[:50]), v.args[0].value
+    return None
+
+
+def _unpack_along_data_axis(ctx, chk):
+    """C01.O2: nowhere in the classification call tree is a fixed number of names unpacked from the transposed side of a
+    sequence that has one entry per storm / rise / interval -- with no such item the unpacking raises ValueError."""
+    from ..guards import guards_of, nonempty_nf
+    tree = sorted(ctx.cg.reachable("classify.classify_intervals") | {"classify.classify_intervals"})
+    n = 0
+    for fq in tree:
+        f = ctx.cg.func(fq)
+        if f is None or f.module.name != "classify":
+            continue
+        flow = Flow.of(f)
+        for st in ast.walk(f.node):
+            hit = _data_axis_unpack(flow, st) if isinstance(st, ast.Assign) else None
+            if hit is None:
+                continue
+            n += 1
+            desc, src = hit
+            me = flow.cfg.node(st)
+            guarded = False
+            names = {x.id for x in ast.walk(src) if isinstance(x, ast.Name)}
+            for g in guards_of(f, include_assert=True):
+                nf = nonempty_nf(g.expr, g.negated)
+                # the guard raises when the subject is empty ...
+                if nf is not None and nf[1] is False and isinstance(nf[0], ast.Name) and nf[0].id in names and me is not None and flow.cfg.dominates(g.node, me):
+                    guarded = True
+            for iff in ast.walk(f.node):
+                # ... or an early exit: if not L: return / continue
+                if isinstance(iff, ast.If) and me is not None:
+                    nf = nonempty_nf(iff.test)
+                    if nf is not None and nf[1] is False and isinstance(nf[0], ast.Name) and nf[0].id in names \
+                            and iff.body and isinstance(iff.body[-1], (ast.Return, ast.Continue, ast.Raise)) \
+                            and flow.cfg.node(iff) is not None and flow.cfg.dominates(flow.cfg.node(iff), me):
+                        guarded = True
+            chk.ob("C01.O2", guarded, where_of(f, st), desc + ("" if not guarded else " (behind an emptiness test)"),
+                   "no unpacking into a fixed number of names along an axis whose length is the number of data items, unless the empty case is handled first",
+                   key="%s|data-axis-unpack|%s" % (f.qualname, ast.unparse(st.targets[0])[:40]),
+                   why="with no storm (or rise) in a data interval the sequence is empty: the transposed side has no entries and the unpacking raises ValueError, aborting classification")
+    # positive control for the zero-expected rule
+    ctl = ast.parse("def f(masks):\n    a, b = np.array([(m[0], m[-1]) for m in masks]).T\n    return a, b\n").body[0]
+
+    class _NoFlow:
+        @staticmethod
+        def def_value(e, mutable_ok=False):
+            return None
+    if _data_axis_unpack(_NoFlow, ctl.body[0]) is None:
+        chk.errors.append("C01.O2 positive control (data-axis unpack) did not match")
+    chk.count("data-axis unpackings in the classification tree", n)
+
+
 def _run_start_marker(ctx, chk):
     f = ctx.func("classify.get_true_interval_masks")
     flow = Flow.of(f)
